@@ -105,11 +105,12 @@ def _insert_missing(rng, cells, p=0.5):
 
 
 def gen_float(rng):
-    if rng.chance(0.3):       # repeated float values (multiplicity must not matter)
-        vals = [_fl(rng) for _ in range(rng.randint(1, 2))]
-        vals = [list(x) for x in {tuple(v) for v in vals}]
+    if rng.chance(0.4):       # repeated float values (multiplicity must not matter)
+        integral = rng.chance(0.5)    # repeated INTEGRAL floats without a missing cell are still a float column
+        vals = [_fl(rng, integral=integral) for _ in range(rng.randint(1, 2))]
+        vals = [list(x) for x in sorted({tuple(v) for v in vals})]
         cells = _rep(rng, vals, _counts(rng, len(vals)))
-        return _insert_missing(rng, cells)
+        return cells if integral else _insert_missing(rng, cells)
     if rng.chance(0.25):      # all-integral floats, no missing cell: still a float column
         return [_fl(rng, integral=True) for _ in range(rng.randint(1, 8))]
     n = rng.randint(1, 8)
@@ -144,7 +145,7 @@ def gen_date(rng):
     fmt = rng.randint(0, 2)
     if rng.chance(0.4):
         k = rng.randint(1, 2)
-        vals = list({_date(rng, fmt) for _ in range(k)})
+        vals = sorted({_date(rng, fmt) for _ in range(k)})
         cells = _rep(rng, [["d", v] for v in vals], _counts(rng, len(vals)))
     else:
         cells = [["d", _date(rng, fmt)] for _ in range(rng.randint(1, 7))]
@@ -251,6 +252,25 @@ def gen_allmissing(rng):
     return [_miss(rng) for _ in range(rng.randint(0, 4))]
 
 
+def gen_mixed(rng):
+    """Malformed stream (outside the property: heterogeneous columns and the two numeric/bool + missing
+    ambiguities).  Run and counted, never judged by the oracle and not part of the correspondence."""
+    k = rng.randint(0, 4)
+    if k == 0:      # list and string cells mixed
+        cells = gen_emb(rng) + [["s", rng.pick(VOCAB)]]
+        rng.shuffle(cells)
+    elif k == 1:    # dates and non-dates mixed
+        cells = gen_date(rng) + [["s", rng.pick(VOCAB)]]
+        rng.shuffle(cells)
+    elif k == 2:    # lists with mixed elements
+        cells = [["l", [["s", rng.pick(VOCAB)], ["i", 1]]], ["l", [["f", 3, 2]]]]
+    elif k == 3:    # bools with a missing cell (object dtype in pandas)
+        cells = gen_bool(rng) + [_miss(rng)]
+    else:           # integral floats with a missing cell (pandas' image of an int column)
+        cells = [_fl(rng, integral=True) for _ in range(rng.randint(1, 6))] + [_miss(rng)]
+    return cells
+
+
 FAMILIES = {
     "float": gen_float, "int": gen_int, "bool": gen_bool, "date": gen_date, "strcat": gen_strcat,
     "multicat": gen_multicat, "text": gen_text, "emb": gen_emb, "seqnum": gen_seqnum,
@@ -292,8 +312,8 @@ def gen_variant(rng, fam, n, perm=None):
 
 
 def gen_series_case(rng, tier, fam=None):
-    fam = fam or rng.wpick(FAM_WEIGHTS)
-    cells = FAMILIES[fam](rng)
+    fam = fam or rng.wpick(FAM_WEIGHTS + [(0.7, "mixed")])
+    cells = gen_mixed(rng) if fam == "mixed" else FAMILIES[fam](rng)
     sd = rng.pick(["object", "str"]) if fam in STR_FAMS else None
     n = len(cells)
     vs = [gen_variant(rng, fam, n) for _ in range(rng.randint(2, 4))]
@@ -337,7 +357,7 @@ def exhaustive_small(rng):
 
 
 def generate(rng, tier):
-    n = 700 if tier == "quick" else 16000
+    n = 1100 if tier == "quick" else 16000
     cases = []
     for fam in FAMILIES:                       # every family is present in every run
         cases += [gen_series_case(rng, tier, fam) for _ in range(4)]
@@ -439,7 +459,11 @@ def run(case):
             warnings.simplefilter("ignore")
             r = infer_df_stype(df)
         out["ok"] = True
-        out["items"] = [[str(k), str(getattr(v, "value", v))] for k, v in r.items()]
+        # a dict: its iteration order is not part of the property -> canonical order = column order of the case
+        pos = {c["name"]: i for i, c in enumerate(case["columns"])}
+        items = [[str(k), str(getattr(v, "value", v))] for k, v in r.items()]
+        out["items"] = sorted(items, key=lambda it: pos.get(it[0], len(pos)))
+        out["n_items"] = len(r)
     except Exception as ex:
         out["ok"] = False
         out["exc"] = C.exc_name(ex)
@@ -540,7 +564,7 @@ def oracle(case, obs):
                 return dict(key="oracle-inconsistent", what="reference table is not invariant itself", expected=exp)
             got = o["res"] if o["ok"] else "raise:" + o["exc"]
             if got != exp:
-                return dict(key=f"variant:{fam}:{'+'.join(kinds) or 'same'}",
+                return dict(key=f"variant:{fam}",
                             what=f"{fam} column inferred {exp}, but {got} after {' and '.join(kinds) or 'rebuilding'}",
                             expected=exp, observed=got, variant=v)
         return None
@@ -616,6 +640,8 @@ def _min_mults(cells):
 def nontrivial_sig(case, obs):
     if obs is None or "harness_exc" in obs:
         return None
+    if case["kind"] == "series" and case["family"] == "mixed":
+        return None
     if case["kind"] == "series":
         if all(c[0] == "m" for c in case["cells"]) and not case["cells"]:
             return None
@@ -671,7 +697,8 @@ def stats(cases, obss):
 def extra(tier, rng):
     """Sanity of the generator itself: every family and both sides of the threshold must be drawn."""
     fails = []
-    cases = [gen_series_case(C.Rng(11 + i), tier) for i in range(400)]
+    sub = C.Rng(rng.randrange(1 << 30))
+    cases = [gen_series_case(sub, tier, fam=sub.wpick(FAM_WEIGHTS)) for i in range(400)]
     fams = {c["family"] for c in cases}
     res = collections.Counter(str(ref_infer(c["cells"])) for c in cases)
     need = {"numerical", "categorical", "timestamp", "embedding", "sequence_numerical", "multicategorical",
